@@ -239,6 +239,7 @@ class HTMLSerializer(object):
         # pylint:disable=too-many-nested-blocks
         self.encoding = encoding
         in_cdata = False
+        after_pre = False
         self.errors = []
 
         if encoding and self.inject_meta_charset:
@@ -264,6 +265,8 @@ class HTMLSerializer(object):
 
         for token in treewalker:
             type = token["type"]
+            first_in_pre = after_pre
+            after_pre = False
             if type == "Doctype":
                 doctype = "<!DOCTYPE %s" % token["name"]
 
@@ -284,6 +287,10 @@ class HTMLSerializer(object):
                 yield self.encodeStrict(doctype)
 
             elif type in ("Characters", "SpaceCharacters"):
+                if first_in_pre and token["data"].startswith("\n"):
+                    # A parser drops one newline directly after the start
+                    # tag of these elements
+                    yield self.encodeStrict("\n")
                 if type == "SpaceCharacters" or in_cdata:
                     if in_cdata and token["data"].find("</") >= 0:
                         self.serializeError("Unexpected </ in CDATA")
@@ -293,6 +300,7 @@ class HTMLSerializer(object):
 
             elif type in ("StartTag", "EmptyTag"):
                 name = token["name"]
+                after_pre = type == "StartTag" and name in ("pre", "textarea", "listing")
                 yield self.encodeStrict("<%s" % name)
                 if name in rcdataElements and not self.escape_rcdata:
                     in_cdata = True
